@@ -195,8 +195,8 @@ impl Scenario for C20 {
     const LEVEL: &'static str = "exploration";
     fn runs(tier: Tier) -> u64 {
         match tier {
-            Tier::Quick => 200_000,
-            Tier::Thorough => 5_000_000,
+            Tier::Quick => 120_000,
+            Tier::Thorough => 2_500_000,
         }
     }
     fn rule() -> &'static str {
@@ -347,6 +347,10 @@ impl Scenario for C20 {
         obs.state(key_of(&[&kind, "ok", &np.to_string()]));
         obs.event(&s1);
         Ok(())
+    }
+
+    fn hash_sensitive() -> bool {
+        true
     }
 
     fn shrink(c: &Case) -> Vec<Case> {
